@@ -14,7 +14,7 @@ def ids(l):
 def run(tier, seed):
     ck = Check(PID, tier, seed)
     rnd = ck.rnd
-    ck.proof = lib.proof_step('props/C03.v', matchcheck.MATCH_CONE + ['ApiFacts.v', 'gen/ApiGen.v'])
+    ck.proof = lib.proof_step('props/C03.v', matchcheck.MATCH_CONE + ['ApiFacts.v', 'gen/ApiGen.v'] + ['MemoFacts.v', 'HistFacts.v'])
     ck.broken += ck.proof['broken']
     if not ck.proof['driver_ok']:
         ck.notes['driver'] = 'unavailable: model-side runs skipped, searching with the implementation-side oracles only'
